@@ -417,7 +417,7 @@ def report(prop, pinfo, tier, seed, results, fl, wall):
         print('VIOLATION property=%s replay=%s obligation=%s%s' % (prop, path, ob['id'], tail))
         rc = 1
     print('%s tier=%s obligations=%d discharged=%d bounded=%d known=%d violations=%d undecided=%d wall=%.1fs'
-          % (prop, tier, len(proofobs), discharged, sum(1 for o in bounded if o['status'] == 'discharged'), len(known),
+          % (prop, tier, len(proofobs), discharged, sum(1 for o in bounded if o['status'] == 'discharged'), len(known) + len(dev_known),
              len(violations), len(undecided), wall))
     if rc == 0 and (undecided or stale):
         rc = 2
